@@ -185,9 +185,25 @@ def h_is_zero(cx, interp, func, st, c, args):
 def h_zero(cx, interp, func, st, c, args):
     return [(st, G(Poly(), C(1), Poly()))]
 
+def exact_rep(st, expected, z3):
+    """the representative (x z3^2, y z3^3, z3) of a finite expected point with a prescribed z"""
+    f = st.facts
+    xn, xd, yn, yd = expected
+    x = xn if xd == C(1) else xn * f.new_nu(xd)
+    y = yn if yd == C(1) else yn * f.new_nu(yd)
+    return G(x * z3 ** 2, y * z3 ** 3, z3)
+
+def sum_rep(s, P, Q, e):
+    """contract result of P + Q: any representative of the sum, except that for a right operand with z = 1 and a different x
+    (mixed addition) the z coordinate is exactly z1 (x2 z1^2 - x1)  [obligation groups::add/*_aff_generic/z_is_z1_h]"""
+    X1, Y1, Z1 = P[2]
+    if e is not None and s.facts.is_zero(Q[2][2] - 1) and s.facts.is_nonzero(Z1) and s.facts.is_nonzero(Q[2][0] * Z1 * Z1 - X1):
+        return exact_rep(s, e, Z1 * (Q[2][0] * Z1 * Z1 - X1))
+    return fresh_rep(s, e, 'sum')
+
 def h_add(cx, interp, func, st, c, args):
     P = unref(interp, st, args[0]); Q = unref(interp, st, args[1])
-    return [(s, fresh_rep(s, e, 'sum')) for s, e in spec_add_forks(cx, st, P, Q)]
+    return [(s, sum_rep(s, P, Q, e)) for s, e in spec_add_forks(cx, st, P, Q)]
 
 def h_double(cx, interp, func, st, c, args):
     P = unref(interp, st, args[0])
@@ -203,13 +219,14 @@ def h_neg(cx, interp, func, st, c, args):
         if p is None:
             out.append((s, fresh_rep(s, None, 'neg')))
         else:
-            out.append((s, fresh_rep(s, (p[0], p[1], -p[2], p[3]), 'neg')))
+            # obligation groups::neg additionally shows the representative (x, -y, z) itself (z unchanged)
+            out.append((s, G(P[2][0], -P[2][1], P[2][2])))
     return out
 
 def h_sub(cx, interp, func, st, c, args):
     P = unref(interp, st, args[0]); Q = unref(interp, st, args[1])
     Qn = G(Q[2][0], -Q[2][1], Q[2][2])
-    return [(s, fresh_rep(s, e, 'diff')) for s, e in spec_add_forks(cx, st, P, Qn)]
+    return [(s, sum_rep(s, P, Qn, e)) for s, e in spec_add_forks(cx, st, P, Qn)]
 
 def h_eq(cx, interp, func, st, c, args):
     P = unref(interp, st, args[0]); Q = unref(interp, st, args[1])
@@ -275,7 +292,7 @@ def add(fid, name, sig, cases, post, prop, extra=None, max_paths=600):
     ex = dict(GROUP_EXTRA)
     if extra:
         ex.update(extra)
-    SPECS.append(FnSpec(fid, FILE, name, sig, ('Base', 'Fr'), cases, post, extra=ex, prop=prop, max_paths=max_paths))
+    SPECS.append(FnSpec(fid, FILE, name, sig, ('Base', 'Fr'), cases, post, extra=ex, prop=tuple(prop) + ('C16',), max_paths=max_paths))
 
 def setup_pts(*pts, more=None):
     def setup(facts):
@@ -295,7 +312,9 @@ def dbl_cases():
     return out
 def dbl_post(case, st, ret, interp):
     p = case.aux['p']
-    return denotes(st, ret, None if p.aff is None else tangent(p.aff))
+    X, Y, Z = p.rep[2]
+    # callers in pairings.rs (g_tangent) rely on the exact z of the doubling formula: z3 = 2 y1 z1
+    return denotes(st, ret, None if p.aff is None else tangent(p.aff)) + [('z_is_2yz', [ret[2][2] - 2 * Y * Z])]
 add('groups::double', r'<impl>::double$', r'^\(&G<P>\) -> G<P>$', dbl_cases, dbl_post, ('C04',))
 
 # add
@@ -335,7 +354,14 @@ def expected_sum(aux):
         return tangent(p.aff)
     return None
 def add_post(case, st, ret, interp):
-    return denotes(st, unref(interp, st, ret), expected_sum(case.aux))
+    r = unref(interp, st, ret)
+    cl = denotes(st, r, expected_sum(case.aux))
+    p, q, rel = case.aux['p'], case.aux['q'], case.aux['rel']
+    if rel == 'generic' and q.kind == 'aff':
+        # callers in pairings.rs (g_line) rely on the exact z of the mixed addition: z3 = z1 (x2 z1^2 - x1)
+        X1, Y1, Z1 = p.rep[2]
+        cl = cl + [('z_is_z1_h', [r[2][2] - Z1 * (q.a * Z1 * Z1 - X1)])]
+    return cl
 add('groups::add', r'<impl>::add$', r'^\(G<P>, G<P>\) -> G<P>$', add_cases, add_post, ('C04',))
 add('groups::add_ref_rhs', r'<impl>::add$', r'^\(G<P>, &G<P>\) -> G<P>$',
     lambda: [Case(c.name, [c.args[0], ref(c.args[1])], c.setup, c.aux) for c in add_cases()], add_post, ('C04',))
@@ -363,7 +389,11 @@ def neg_cases():
     return out
 def neg_post(case, st, ret, interp):
     p = case.aux['p']
-    return denotes(st, ret, None if p.aff is None else (p.a, C(1), -p.b, C(1)))
+    cl = denotes(st, ret, None if p.aff is None else (p.a, C(1), -p.b, C(1)))
+    if p.aff is not None:
+        X, Y, Z = p.rep[2]
+        cl = cl + [('same_x_z_negated_y', [ret[2][0] - X, ret[2][1] + Y, ret[2][2] - Z])]
+    return cl
 add('groups::neg', r'<impl>::neg$', r'^\(G<P>\) -> G<P>$', neg_cases, neg_post, ('C04',))
 def aneg_post(case, st, ret, interp):
     x, y = case.args[0][2]
@@ -382,7 +412,12 @@ def aa_cases(byref):
     return cases
 def aa_post(case, st, ret, interp):
     val = st.mem[(0, 1000)]
-    return denotes(st, val, expected_sum(case.aux))
+    cl = denotes(st, val, expected_sum(case.aux))
+    p, q, rel = case.aux['p'], case.aux['q'], case.aux['rel']
+    if rel == 'generic' and q.kind == 'aff':
+        X1, Y1, Z1 = p.rep[2]
+        cl = cl + [('z_is_z1_h', [val[2][2] - Z1 * (q.a * Z1 * Z1 - X1)])]
+    return cl
 # (mutable-reference parameters are initialised by vc through aux['init'])
 add('groups::add_assign', r'<impl>::add_assign$', r'^\(&mut G<P>, G<P>\)', aa_cases(False), aa_post, ('C04',))
 add('groups::add_assign_ref', r'<impl>::add_assign$', r'^\(&mut G<P>, &G<P>\)', aa_cases(True), aa_post, ('C04',))
